@@ -9,6 +9,7 @@ import (
 	"errors"
 	"fmt"
 	"net"
+	"runtime"
 	"strings"
 	"sync"
 	"sync/atomic"
@@ -37,16 +38,16 @@ type StreamStep struct {
 
 // Script says what one handler invocation does.
 type Script struct {
-	Gate     chan struct{} // nil: proceed at once; otherwise wait until closed
-	Action   Action
-	Value    int64
-	Code     codes.Code
-	Msg      string
-	PlainErr bool
-	Release  string // "", "early", "twice", "helper", "late" (after the gate, before returning)
-	Stream   []StreamStep
-	EndGate  chan struct{} // stream handlers: waited for after the last step, before the handler ends
-	StreamErr bool // stream handler ends with the Fail status instead of nil
+	Gate      chan struct{} // nil: proceed at once; otherwise wait until closed
+	Action    Action
+	Value     int64
+	Code      codes.Code
+	Msg       string
+	PlainErr  bool
+	Release   string // "", "early", "twice", "helper", "late" (after the gate, before returning)
+	Stream    []StreamStep
+	EndGate   chan struct{} // stream handlers: waited for after the last step, before the handler ends
+	StreamErr bool          // stream handler ends with the Fail status instead of nil
 
 	Entered chan struct{} // closed at handler entry
 	Exited  chan struct{} // closed when the handler returns
@@ -80,15 +81,15 @@ type key struct {
 
 // Director holds the scripts and the observation log.
 type Director struct {
-	mu      sync.Mutex
-	byToken map[key]*Script
-	fifo    map[key][]*Script // token field holds the method name
-	conns   map[context.Context]int
-	serials map[int]int
-	Log     []Event
-	KeepLog bool
-	Quit    chan struct{} // closed at teardown
-	Default func(server int, method, val string) *Script
+	mu         sync.Mutex
+	byToken    map[key]*Script
+	fifo       map[key][]*Script // token field holds the method name
+	conns      map[context.Context]int
+	serials    map[int]int
+	Log        []Event
+	KeepLog    bool
+	Quit       chan struct{} // closed at teardown
+	Default    func(server int, method, val string) *Script
 	MD         map[int]map[string][]string // conn -> incoming metadata (filled by the connect callback)
 	Connects   map[int]int                 // server -> number of connect callbacks
 	ConnServer map[int]int                 // conn -> server
@@ -282,11 +283,22 @@ func (p *Server) release(ctx *gorums.ServerCtx, s *Script, method string, when s
 		// several goroutines release at the same moment, racing with each other (and, when the
 		// handler is let go at once, with the implicit release at return)
 		p.D.note(p.Idx, s, method, "release")
-		start := make(chan struct{})
-		for i := 0; i < 4; i++ {
-			go func() { <-start; ctx.Release() }()
+		// (a spin barrier rather than a channel: the releases must really happen at the same instant on
+		// different cores for a check-then-act in Release to be caught)
+		const n = 8
+		var ready, fire int32
+		for i := 0; i < n; i++ {
+			go func() {
+				atomic.AddInt32(&ready, 1)
+				for atomic.LoadInt32(&fire) == 0 {
+				}
+				ctx.Release()
+			}()
 		}
-		close(start)
+		for atomic.LoadInt32(&ready) < n {
+			runtime.Gosched()
+		}
+		atomic.StoreInt32(&fire, 1)
 	}
 }
 
